@@ -20,8 +20,15 @@ CHECK = GraphCheck(
         "and after every replace_jump_targets call (M-table contract); (2) exact exploration of "
         "(original leaf, live valuation, stale latches) to a fixed point flagging unset, stale-at-"
         "latch and out-of-range uses; (3) must-assigned data-flow analysis as a verdict after the "
-        "loop stage only. distinct = hash of the input graph; non-trivial = the exploration reached "
-        "at least one synthetic branching block"
+        "loop stage only. Histories: (a) aliasing - a partly restructured graph is written to a "
+        "dict, read back twice, one copy restructured further, tables of the original and of the "
+        "untouched copy re-checked; (b) edits - random sequences of the public edit primitives "
+        "(insert_block of four types, insert_block_and_control_blocks, join_tails_and_exits, with "
+        "branching synthetic blocks and regions as predecessors and several successors rerouted at "
+        "once) on graphs after JL/JLB, with the M-table contract on every table rewrite, table/"
+        "successor agreement after every edit and the exact exploration after every edit of a "
+        "path-preserving history. distinct = hash of the input graph (+ history); non-trivial = the "
+        "exploration reached at least one synthetic branching block / an edit rerouted an arc"
     ),
     nontrivial=nontrivial,
     deciding=["oracle.C06.exact", "oracle.C06.tables"],
@@ -52,7 +59,34 @@ def _plan(tier, seed):
     per = 250 if tier == "quick" else 3000
     for start in range(0, total, per):
         shards.append({"kind": "alias", "seed": seed, "start": start, "count": per, "tier": tier})
+    total = 3000 if tier == "quick" else 120000
+    for start in range(0, total, per):
+        shards.append({"kind": "edit_histories", "seed": seed, "start": start, "count": per,
+                       "tier": tier})
     return shards
+
+
+# ---------------------------------------------------------------- edit histories
+# "... at every stage and after every renaming": the pipeline itself only ever
+# renames one successor for one; the public edit primitives can put one new
+# block behind several successors of a branching block at once (or behind two
+# of three).  The C14 history generator is reused; the M-table contract runs on
+# every table rewrite the edits cause, the table/successor agreement after
+# every edit, and the exact exploration after every edit of a path-preserving
+# history.  ("C06T" activates the M-table contract only: the stage oracles are
+# reference-model oracles and say nothing after an edit that is not
+# path-preserving; an insertion with S empty - which *appends* a successor - is
+# only made behind exits, as join_returns does.)
+def _post_edit(ctx, scfg):
+    from ..oracles import ctrlvars
+
+    ctx.hit("C06.tables_after_edit")
+    _run_oracle(ctx, "C06.tables", ctrlvars.check_tables, scfg)
+    if ctx.data.get("history_mode") == "pp":
+        r = _run_oracle(ctx, "C06.exact", ctrlvars.exact, scfg, 300_000)
+        if r is not None:
+            for p in r[0][:3]:
+                ctx.violation("C06", p[0] + "_after_edit", p[1:])
 
 
 def _alias_case(case, acc):
@@ -89,6 +123,24 @@ def _alias_case(case, acc):
 
 
 def _run_shard(spec):
+    if spec["kind"] == "edit_histories" or (spec["kind"] == "single"
+                                            and spec["case"].get("kind") == "history"):
+        from . import c14 as _c14
+
+        _attach.install(("stage", "table", "edit"))
+        acc = _ShardAcc("C06")
+        if spec["kind"] == "single":
+            _c14.run_history(spec["case"], acc, _post_edit, False, "C06", active=("C06T",),
+                             append_only_to_exits=True)
+            return acc.result()
+        for i in range(spec["start"], spec["start"] + spec["count"]):
+            rng = _random.Random(f"c06h/{spec['seed']}/{i}")
+            case = _c14.gen_history(rng)
+            if case["prefix"] in ("", "J"):
+                case["prefix"] = rng.choice(["JL", "JLB"])  # tables exist only after L
+            _c14.run_history(case, acc, _post_edit, False, "C06", active=("C06T",),
+                                 append_only_to_exits=True)
+        return acc.result()
     if spec["kind"] == "alias" or (spec["kind"] == "single"
                                    and spec["case"].get("kind") == "alias"):
         _attach.install(CHECK.profile)
